@@ -10,7 +10,7 @@ META = {
     "explanation": "Sound path-partitioned abstract interpretation (zone domain over self.0, other.0) of "
                    "<Serial as PartialOrd>::partial_cmp, Serial::add, to_be/from_be, eq and hash: the computed map "
                    "input-region → outcome is compared for equality with the RFC 1982 table over the whole 2^64 input "
-                   "space, including absence of any feasible overflow panic; every table row is an obligation.",
+                   "space, including absence of any feasible overflow panic; every table row is an obligation; to_be / from_be decided as byte permutations on little- and big-endian hosts.",
     "not_decided": [],
     "trusted_base": ["the ≈800-line abstract interpreter (/verif/engine/absint.py)", "std integer cmp / wrapping_add / to_be semantics"],
     "technique": "abstract interpretation of type-checked MIR (zone/DBM domain, path partitioning) compared with a spec table",
